@@ -429,6 +429,83 @@ class ClassHarness:
         return self
 
 
+SUBJECT_STATE = {"is_stopped", "is_disposed", "observers", "exception", "value", "has_value", "queue"}
+
+
+def subscribe_lock_discipline(c, loader):
+    """The refinement above is about call histories of one thread (and re-entrant calls).  What lets it speak for subscribers that arrive while
+    another thread is inside on_next / on_completed is the monitor discipline of `_subscribe_core`, checked on the real AST:
+      - it decides ("terminated? disposed?") and registers the observer (observers.append) in ONE critical section of self.lock, and reads no
+        state of the subject outside the lock (a decision taken outside may be stale when the registration happens: the subscriber would be
+        appended to a subject that has just completed and never hear of it);
+      - what a NEW subscriber is handed from the live subject (the current value of a BehaviorSubject, the retained values of a ReplaySubject)
+        is handed over inside that same critical section (handed over after releasing it, a concurrent on_next can overtake it)."""
+    import ast as _ast
+    try:
+        node = loader.find(c.file, c.cls + "._subscribe_core")
+    except Exception:  # noqa: BLE001
+        return []
+    uid = f"{c.uid}._subscribe_core/lock-discipline"
+    parents = {}
+    for n in _ast.walk(node):
+        for ch in _ast.iter_child_nodes(n):
+            parents[ch] = n
+
+    def locked_block(n):
+        p = parents.get(n)
+        while p is not None:
+            if isinstance(p, _ast.With) and any(isinstance(i.context_expr, _ast.Attribute) and i.context_expr.attr == "lock" and isinstance(i.context_expr.value, _ast.Name)
+                                                and i.context_expr.value.id == "self" for i in p.items):
+                return p
+            p = parents.get(p)
+        return None
+    out = []
+
+    def res(leaf, ok, detail):
+        out.append({"id": f"{uid}/{leaf}", "verdict": "proved" if ok else "refuted", "backend": "lock-discipline (AST)", "model": {}, "path": [], "detail": detail,
+                    "seconds": 0.0, "kind": "lock"})
+    unlocked = []
+    appends, decisions, handovers = [], [], []
+    for n in _ast.walk(node):
+        if isinstance(n, _ast.Attribute) and isinstance(n.value, _ast.Name) and n.value.id == "self" and n.attr in SUBJECT_STATE and locked_block(n) is None:
+            unlocked.append(f"self.{n.attr} (line {n.lineno})")
+        if isinstance(n, _ast.Call) and isinstance(n.func, _ast.Attribute) and isinstance(n.func.value, _ast.Name) and n.func.value.id == "self" \
+                and n.func.attr == "check_disposed" and locked_block(n) is None:
+            unlocked.append(f"self.check_disposed() (line {n.lineno})")
+        if isinstance(n, _ast.Call) and isinstance(n.func, _ast.Attribute) and n.func.attr == "append" and isinstance(n.func.value, _ast.Attribute) and n.func.value.attr == "observers":
+            appends.append(n)
+        if isinstance(n, (_ast.If, _ast.IfExp, _ast.Assign)) and any(isinstance(x, _ast.Attribute) and x.attr == "is_stopped" for x in _ast.walk(n.test if not isinstance(n, _ast.Assign) else n.value)):
+            decisions.append(n)
+    res("reads-the-subject's-state-only-under-its-lock", not unlocked, f"outside `with self.lock`: {unlocked}")
+    if appends:
+        blk = locked_block(appends[0])
+        same = blk is not None and all(locked_block(d) is blk for d in decisions) and bool(decisions or c.cls == "ReplaySubject")
+        res("decides-and-registers-in-one-critical-section", same, f"registration at line {appends[0].lineno}; the is_stopped decision at "
+            f"{[d.lineno for d in decisions]} must sit in the same `with self.lock` block")
+        # what the new subscriber gets from the live subject: on_next calls on the observer that follow the registration on its path
+        for n in _ast.walk(node):
+            if isinstance(n, _ast.Call) and isinstance(n.func, _ast.Attribute) and n.func.attr == "on_next" and n.lineno > appends[0].lineno:
+                anc, p = [], parents.get(n)
+                while p is not None:
+                    anc.append(p)
+                    p = parents.get(p)
+                # in the branch that registered (shares the If / With ancestors of the append up to the function)?
+                a_anc, p = [], parents.get(appends[0])
+                while p is not None:
+                    a_anc.append(p)
+                    p = parents.get(p)
+                branch = [x for x in a_anc if isinstance(x, _ast.If)]
+                if all(x in anc for x in branch) or not branch:
+                    handovers.append(n)
+        live = [n for n in handovers if not any(isinstance(x, _ast.If) and any(isinstance(y, _ast.Attribute) and y.attr in ("exception", "has_value") for y in _ast.walk(x.test))
+                                                for x in [parents.get(n)] if x is not None)]
+        if c.cls in ("BehaviorSubject", "ReplaySubject") or live:
+            bad = [n.lineno for n in live if locked_block(n) is not blk]
+            res("hands-the-new-subscriber-its-values-inside-the-critical-section-that-registered-it", bool(live) and not bad if c.cls in ("BehaviorSubject", "ReplaySubject") else not bad,
+                f"on_next to the new subscriber at lines {[n.lineno for n in live]}; outside the registering critical section: {bad}")
+    return out
+
+
 def run_unit(desc):
     import importlib
 
@@ -444,6 +521,7 @@ def run_unit(desc):
         "spec_validation": [],
         "bounded": [],
     }
+    rep["results"] += subscribe_lock_discipline(c, h.loader)
     if c.witness:
         import json
         import os
